@@ -1,240 +1,10 @@
 /-
   Lemmas on the export formats: closed forms of `struct.pack` for the layouts extracted from the
   source (`Generated/Repo.lean`), footer parsing, sub-filter and bucket parsing.
+
+  The lemmas live in one module per data-structure family, so that a change of one family's
+  extracted layout does not invalidate the other families; this module only gathers them.
 -/
-import PyProb.Lemmas.Codec
-import PyProb.Model.Expanding
-import PyProb.Model.CMS
-import PyProb.Model.Cuckoo
-
-namespace PyProb
-
-/-! ### closed forms of `pack` for the concrete layouts (all native paddings are zero) -/
-
-theorem expCount_pack (v : Int) : Gen.expCount.pack [v] =
-    if v < 0 ∨ v > 18446744073709551615 then .error .structError else .ok (leBytesInt 8 v) := by
-  simp [Layout.pack, packGo, Gen.expCount, Field.lo, Field.hi, Gen.uint64Max, Layout.padBefore, Field.size, encField, Layout.isBig]
-
-theorem bloomFooter_pack (a b c : Int) : Gen.bloomFooter.pack [a, b, c] =
-    if a < 0 ∨ a > 18446744073709551615 then .error .structError
-    else if b < 0 ∨ b > 18446744073709551615 then .error .structError
-    else if c < 0 ∨ c > 4294967295 then .error .structError
-    else .ok (leBytesInt 8 a ++ leBytesInt 8 b ++ leBytesInt 4 c) := by
-  simp [Layout.pack, packGo, Gen.bloomFooter, Field.lo, Field.hi, Gen.uint64Max, Gen.uint32Max, Layout.padBefore, Field.size, encField, Layout.isBig]
-  repeat' split
-  all_goals simp_all
-
-theorem bloomFooterHex_pack (a b c : Int) : Gen.bloomFooterHex.pack [a, b, c] =
-    if a < 0 ∨ a > 18446744073709551615 then .error .structError
-    else if b < 0 ∨ b > 18446744073709551615 then .error .structError
-    else if c < 0 ∨ c > 4294967295 then .error .structError
-    else .ok ((leBytesInt 8 a).reverse ++ (leBytesInt 8 b).reverse ++ (leBytesInt 4 c).reverse) := by
-  simp [Layout.pack, packGo, Gen.bloomFooterHex, Field.lo, Field.hi, Gen.uint64Max, Gen.uint32Max, Layout.padBefore, Field.size, encField, Layout.isBig]
-  repeat' split
-  all_goals simp_all
-
-theorem cmsFooter_pack (a b c : Int) : Gen.cmsFooter.pack [a, b, c] =
-    if a < 0 ∨ a > 4294967295 then .error .structError
-    else if b < 0 ∨ b > 4294967295 then .error .structError
-    else if c < -9223372036854775808 ∨ c > 9223372036854775807 then .error .structError
-    else .ok (leBytesInt 4 a ++ leBytesInt 4 b ++ leBytesInt 8 c) := by
-  simp [Layout.pack, packGo, Gen.cmsFooter, Field.lo, Field.hi, Gen.int64Max, Gen.int64Min, Gen.uint32Max, Layout.padBefore, Field.size, encField, Layout.isBig]
-  repeat' split
-  all_goals simp_all
-
-theorem expFooter_pack (a b c d : Int) : Gen.expFooter.pack [a, b, c, d] =
-    if a < 0 ∨ a > 18446744073709551615 then .error .structError
-    else if b < 0 ∨ b > 18446744073709551615 then .error .structError
-    else if c < 0 ∨ c > 18446744073709551615 then .error .structError
-    else if d < 0 ∨ d > 4294967295 then .error .structError
-    else .ok (leBytesInt 8 a ++ leBytesInt 8 b ++ leBytesInt 8 c ++ leBytesInt 4 d) := by
-  simp [Layout.pack, packGo, Gen.expFooter, Field.lo, Field.hi, Gen.uint64Max, Gen.uint32Max, Layout.padBefore, Field.size, encField, Layout.isBig]
-  repeat' split
-  all_goals simp_all
-
-theorem cuckooFooter_pack (a b : Int) : Gen.cuckooFooter.pack [a, b] =
-    if a < 0 ∨ a > 4294967295 then .error .structError
-    else if b < 0 ∨ b > 4294967295 then .error .structError
-    else .ok (leBytesInt 4 a ++ leBytesInt 4 b) := by
-  simp [Layout.pack, packGo, Gen.cuckooFooter, Field.lo, Field.hi, Gen.uint32Max, Layout.padBefore, Field.size, encField, Layout.isBig]
-  repeat' split
-  all_goals simp_all
-
-theorem bloomFooter_size : Gen.bloomFooter.size = 20 := by decide
-theorem bloomFooterHex_size : Gen.bloomFooterHex.size = 20 := by decide
-theorem cmsFooter_size : Gen.cmsFooter.size = 16 := by decide
-theorem expFooter_size : Gen.expFooter.size = 28 := by decide
-theorem expCount_size : Gen.expCount.size = 8 := by decide
-theorem cuckooFooter_size : Gen.cuckooFooter.size = 8 := by decide
-theorem bloomCell_size : Gen.bloomCell.size = 1 := by decide
-theorem cbfCell_size : Gen.cbfCell.size = 4 := by decide
-theorem cmsCell_size : Gen.cmsCell.size = 4 := by decide
-
-/-! ### footers -/
-
-theorem lastN_append {α} (a b : List α) (n : Nat) (h : b.length = n) : Bloom.lastN n (a ++ b) = b := by
-  unfold Bloom.lastN; exact drop_length_sub_append a b n h
-
-theorem cms_lastN_append {α} (a b : List α) (n : Nat) (h : b.length = n) : CMS.lastN n (a ++ b) = b := by
-  unfold CMS.lastN; exact drop_length_sub_append a b n h
-
-theorem ofFooter_pack (geom : Geom) (lay : Layout) (f : Bytes) (est fpr32 fpr' k m : Nat) (cnt : Int)
-    (hp : lay.pack [(est : Int), cnt, (fpr32 : Int)] = .ok f)
-    (hg : geom est fpr32 = .ok (fpr', k, m)) :
-    Bloom.ofFooter geom lay f = .ok ⟨est, fpr', k, m, [], cnt⟩ := by
-  unfold Bloom.ofFooter
-  rw [unpack_pack lay _ f hp]
-  simp [hg]
-
-/-! ### expanding / rotating: sub-filters -/
-
-/-- sub-filters that share the prototype's parameters and have `sz` bytes each are parsed back -/
-theorem parseBlooms_go (proto : Bloom) (sz : Nat) (blooms : List Bloom) (body suf : Bytes)
-    (hwf : ∀ b ∈ blooms, b.est = proto.est ∧ b.fpr32 = proto.fpr32 ∧ b.k = proto.k ∧ b.m = proto.m ∧
-      b.bits.length = sz)
-    (h : Expanding.exportBytes.go blooms = .ok body) :
-    Expanding.parseBlooms proto sz blooms.length (body ++ suf) = blooms := by
-  induction blooms generalizing body with
-  | nil => rfl
-  | cons b bs ih =>
-      have hb := hwf b (by simp)
-      have hbs := fun x hx => hwf x (List.mem_cons_of_mem _ hx)
-      simp only [Expanding.exportBytes.go, expCount_pack] at h
-      split at h
-      · rename_i c rest hc hrest
-        injection h with h; subst h
-        split at hc
-        · cases hc
-        · rename_i hrange
-          injection hc with hc; subst hc
-          have ih := ih rest hbs hrest
-          simp only [List.length_cons, Expanding.parseBlooms, expCount_size, List.append_assoc]
-          rw [List.take_left' (leBytesInt_length _ _), List.drop_left' (leBytesInt_length _ _)]
-          rw [List.take_left' hb.2.2.2.2]
-          have hd : List.drop (8 + sz) (leBytesInt 8 b.count ++ (b.bits ++ (rest ++ suf))) = rest ++ suf := by
-            rw [← List.append_assoc]; exact List.drop_left' (by simp [hb.2.2.2.2])
-          rw [hd, ih]
-          have : decField false Field.u64 (leBytesInt 8 b.count) = b.count :=
-            decField_leBytesInt .u64 b.count (by simp [Field.lo]; omega) (by simp [Field.hi, Gen.uint64Max]; omega)
-          rw [this]
-          congr 1
-          obtain ⟨e1, e2, e3, e4, -⟩ := hb
-          cases b; cases proto; simp_all
-      · cases h
-      · cases h
-
-/-! ### cuckoo buckets -/
-
-/-- the cell the export writes for one bin -/
-def cuckooCell (counting : Bool) (bin : CBin) : Bytes :=
-  if counting then leBytes 4 bin.1 ++ leBytes 4 bin.2 else leBytes 4 bin.1
-
-def cuckooW (counting : Bool) : Nat := if counting then 8 else 4
-
-/-- what a bin must satisfy to survive the export format -/
-def BinOK (counting : Bool) (bin : CBin) : Prop :=
-  0 < bin.1 ∧ bin.1 < 2 ^ 32 ∧ bin.2 < 2 ^ 32 ∧ (counting = false → bin.2 = 1)
-
-instance (counting : Bool) (bin : CBin) : Decidable (BinOK counting bin) := by
-  unfold BinOK; infer_instance
-
-theorem cuckooCell_length (counting : Bool) (bin : CBin) : (cuckooCell counting bin).length = cuckooW counting := by
-  unfold cuckooCell cuckooW; cases counting <;> simp
-
-theorem ofLE_replicate_zero (n : Nat) : ofLE (List.replicate n 0) = 0 := by
-  induction n with
-  | zero => rfl
-  | succ n ih => simp [List.replicate_succ, ofLE, ih]
-
-theorem parseBucket_zeros (counting : Bool) (z : Nat) :
-    Cuckoo.parseBucket counting z (List.replicate (z * cuckooW counting) 0) = [] := by
-  induction z with
-  | zero => rfl
-  | succ z ih =>
-      have hsplit : List.replicate ((z + 1) * cuckooW counting) 0
-          = List.replicate (cuckooW counting) 0 ++ List.replicate (z * cuckooW counting) 0 := by
-        rw [List.replicate_append_replicate]; congr 1; rw [Nat.succ_mul]; omega
-      simp only [Cuckoo.parseBucket]
-      have h4 : List.take 4 (List.replicate ((z + 1) * cuckooW counting) 0) = List.replicate 4 0 := by
-        rw [List.take_replicate]; congr 1
-        have : 4 ≤ cuckooW counting := by unfold cuckooW; cases counting <;> simp
-        rw [Nat.succ_mul]; omega
-      rw [h4, ofLE_replicate_zero]
-      simp only [Nat.lt_irrefl, if_false]
-      have hd : List.drop (if counting = true then 8 else 4) (List.replicate ((z + 1) * cuckooW counting) 0)
-          = List.replicate (z * cuckooW counting) 0 := by
-        rw [hsplit]; exact List.drop_left' (by simp [cuckooW])
-      rw [hd, ih]
-
-theorem parseBucket_bins (counting : Bool) (bins : List CBin) (z : Nat)
-    (h : ∀ bin ∈ bins, BinOK counting bin) :
-    Cuckoo.parseBucket counting (bins.length + z)
-      (bins.flatMap (cuckooCell counting) ++ List.replicate (z * cuckooW counting) 0) = bins := by
-  induction bins with
-  | nil => simpa using parseBucket_zeros counting z
-  | cons bin bins ih =>
-      obtain ⟨h0, h1, h2, h3⟩ := h bin (by simp)
-      have ih := ih (fun x hx => h x (List.mem_cons_of_mem _ hx))
-      have hlen : bins.length + 1 + z = (bins.length + z) + 1 := by omega
-      simp only [List.length_cons, hlen, Cuckoo.parseBucket, List.flatMap_cons, List.append_assoc]
-      have hfp : ofLE (List.take 4 (cuckooCell counting bin ++
-          (bins.flatMap (cuckooCell counting) ++ List.replicate (z * cuckooW counting) 0))) = bin.1 := by
-        unfold cuckooCell
-        cases counting <;> simp only [Bool.false_eq_true, if_false, if_true, List.append_assoc]
-          <;> rw [List.take_left' (leBytes_length _ _), ofLE_leBytes_of_lt (by simpa using h1)]
-      have hdrop : List.drop (if counting = true then 8 else 4) (cuckooCell counting bin ++
-          (bins.flatMap (cuckooCell counting) ++ List.replicate (z * cuckooW counting) 0))
-          = bins.flatMap (cuckooCell counting) ++ List.replicate (z * cuckooW counting) 0 :=
-        List.drop_left' (by rw [cuckooCell_length]; rfl)
-      have hcnt : (if counting = true then ofLE (List.take 4 (List.drop 4 (cuckooCell counting bin ++
-          (bins.flatMap (cuckooCell counting) ++ List.replicate (z * cuckooW counting) 0)))) else 1) = bin.2 := by
-        cases counting
-        · simp [h3 rfl]
-        · simp only [if_true, cuckooCell, List.append_assoc]
-          rw [List.drop_left' (leBytes_length _ _), List.take_left' (leBytes_length _ _),
-            ofLE_leBytes_of_lt (by simpa using h2)]
-      rw [hfp, hcnt, hdrop, ih, if_pos h0]
-
-/-- the bytes the export writes for one bucket -/
-def bucketBytes (counting : Bool) (b : Nat) (bkt : List CBin) : Bytes :=
-  bkt.flatMap (cuckooCell counting) ++ List.replicate ((b - bkt.length) * cuckooW counting) 0
-
-theorem bucketBytes_length (counting : Bool) (b : Nat) (bkt : List CBin) (h : bkt.length ≤ b) :
-    (bucketBytes counting b bkt).length = cuckooW counting * b := by
-  have : (bkt.flatMap (cuckooCell counting)).length = bkt.length * cuckooW counting := by
-    induction bkt with
-    | nil => simp
-    | cons x xs ih =>
-        simp only [List.flatMap_cons, List.length_append, cuckooCell_length, List.length_cons]
-        rw [ih (by simp at h; omega), Nat.succ_mul]; omega
-  simp only [bucketBytes, List.length_append, List.length_replicate, this]
-  rw [← Nat.add_mul, Nat.mul_comm]; congr 1; omega
-
-theorem parseBuckets_body (counting : Bool) (b : Nat) (buckets : List (List CBin)) (suf : Bytes)
-    (h : ∀ bkt ∈ buckets, bkt.length ≤ b ∧ ∀ bin ∈ bkt, BinOK counting bin) :
-    Cuckoo.parseBuckets counting b buckets.length (buckets.flatMap (bucketBytes counting b) ++ suf) = buckets := by
-  induction buckets with
-  | nil => rfl
-  | cons bkt rest ih =>
-      obtain ⟨hl, hb⟩ := h bkt (by simp)
-      have ih := ih (fun x hx => h x (List.mem_cons_of_mem _ hx))
-      simp only [List.length_cons, Cuckoo.parseBuckets, List.flatMap_cons, List.append_assoc]
-      have hlen := bucketBytes_length counting b bkt hl
-      unfold cuckooW at hlen
-      rw [List.take_left' hlen, List.drop_left' hlen, ih]
-      congr 1
-      have := parseBucket_bins counting bkt (b - bkt.length) hb
-      rw [show bkt.length + (b - bkt.length) = b by omega] at this
-      exact this
-
-theorem body_length (counting : Bool) (b : Nat) (buckets : List (List CBin))
-    (h : ∀ bkt ∈ buckets, bkt.length ≤ b) :
-    (buckets.flatMap (bucketBytes counting b)).length = buckets.length * (cuckooW counting * b) := by
-  induction buckets with
-  | nil => simp
-  | cons bkt rest ih =>
-      simp only [List.flatMap_cons, List.length_append, List.length_cons]
-      rw [bucketBytes_length _ _ _ (h bkt (by simp)), ih (fun x hx => h x (List.mem_cons_of_mem _ hx)), Nat.succ_mul]
-      omega
-
-end PyProb
+import PyProb.Lemmas.FormatsBloom
+import PyProb.Lemmas.FormatsCms
+import PyProb.Lemmas.FormatsCuckoo
